@@ -33,8 +33,8 @@ Print Assumptions C03_vle_light_heavy.
 (* the lever-rule hypothesis cannot be dropped: with a bubble-point result y that is not a
    composition (here it sums to 17/8) the x specification writes a negative liquid flow *)
 Definition cf2 := mkcfg [KVle; KVle] [0; 0] [18; 46].
-Definition orc_lever := mkorc 0 (fun _ => 0) (fun _ => 0) 0 0 (fun _ => (50000, [1#8; 2])) (fun _ => (0, []))
-  (fun _ => []) (fun _ => ([], 0)) (fun _ _ _ _ => 0) (fun _ _ _ _ _ => 0) (fun _ _ _ _ _ => 0).
+Definition orc_lever := mkorc 0 (fun _ => 0) (fun _ => 0) 0 0 (fun _ _ => (50000, [1#8; 2])) (fun _ _ => (0, []))
+  (fun _ _ _ => []) (fun _ => ([], 0)) (fun _ _ _ _ => 0) (fun _ _ _ _ _ => 0) (fun _ _ _ _ _ => 0).
 Definition st_lever := mkst [1; 1] [0; 0] [] 300 101325.
 Theorem C03_vle_nonneg_needs_lever_hypothesis :
   exists st', vle cf2 orc_lever (SpTx 350 [3#4; 1#4]) st_lever = VOk st' /\ nthq (liq st') 1 < 0.
@@ -131,8 +131,8 @@ Print Assumptions C03_lle_cached_nonneg.
 
 (* non-vacuity: a two-phase result with a gas-only and a liquid-only chemical, adversarial raw v *)
 Definition cf4 := mkcfg [KVle; KVle; KLight; KHeavy] [0; 0; 0; 2] [18; 46; 28; 58].
-Definition orc_tp := mkorc 0 (fun _ => 0) (fun _ => 0) 0 0 (fun _ => (200000, [1#2; 1#2])) (fun _ => (50000, [1#2; 1#2]))
-  (fun _ => [-1; 9]) (fun _ => ([], 0)) (fun _ _ _ _ => 0) (fun _ _ _ _ _ => 0) (fun _ _ _ _ _ => 0).
+Definition orc_tp := mkorc 0 (fun _ => 0) (fun _ => 0) 0 0 (fun _ _ => (200000, [1#2; 1#2])) (fun _ _ => (50000, [1#2; 1#2]))
+  (fun _ _ _ => [-1; 9]) (fun _ => ([], 0)) (fun _ _ _ _ => 0) (fun _ _ _ _ _ => 0) (fun _ _ _ _ _ => 0).
 Definition st4 := mkst [4; 2; 1; 0] [0; 2; 0; 3] [[1; 1; 1; 1]] 300 101325.
 Example C03_nonvacuous :
   wf st4 /\ nn st4 /\ vle_hyp cf4 orc_tp (SpTP 350 101325) st4 /\
@@ -145,6 +145,6 @@ Qed.
 Example C03_nonvacuous_V : vle_hyp cf4 orc_tp (SpPV 101325 (1#2)) st4.
 Proof.
   split; [split; unfold Qle; simpl; lia|]. split.
-  - intros k p. cbn. do 3 (destruct p as [|p]; [split; unfold Qle; simpl; lia|]). split; unfold Qle; simpl; lia.
+  - intros k a p. cbn. do 3 (destruct p as [|p]; [split; unfold Qle; simpl; lia|]). split; unfold Qle; simpl; lia.
   - intros k. do 5 (destruct k as [|k]; [unfold Qle; simpl; lia|]). unfold Qle; simpl; lia.
 Qed.
